@@ -12,6 +12,7 @@
 #include <fcntl.h>
 #include <sys/mman.h>
 #include <unistd.h>
+#include <signal.h>
 
 extern "C" {
 const char *vh_name(void);
@@ -49,6 +50,8 @@ static void load_corpus(const char *dir) {
         if (b.size() <= 4096) g_corpus.push_back(b);
     }
 }
+
+static void on_alarm(int) { _exit(77); }  // a case ran into the per-case watchdog: the driver picks the case up from VH_CUR
 
 static void note_current(const std::vector<uint8_t> &v) {
     if (!g_cur) return;
@@ -109,13 +112,17 @@ int main() {
     (void)maxlen;
 
     FILE *save = getenv("VH_SAVE_CORPUS") ? fopen(getenv("VH_SAVE_CORPUS"), "wb") : nullptr;
+    int case_timeout = getenv("VH_CASE_TIMEOUT") ? atoi(getenv("VH_CASE_TIMEOUT")) : 0;
+    if (case_timeout > 0) signal(SIGALRM, on_alarm);
     bool failed_once = false;
     bool ok = rc::check(vh_name(), [&]() {
         Bytes v = *gen;
         note_current(v);
         if (save && !failed_once) { uint32_t n = (uint32_t)v.size(); fwrite(&n, 4, 1, save); fwrite(v.data(), 1, v.size(), save); }
         if (failed_once) vh_set_quiet(1);  // shrinking: keep the counters of the search itself
+        if (case_timeout > 0) alarm((unsigned)case_timeout);
         int r = vh_run(v.data(), v.size());
+        if (case_timeout > 0) alarm(0);
         if (r != 0) {
             failed_once = true;
             if (failp) {
